@@ -10,6 +10,7 @@ package harness
 
 import (
 	"bytes"
+	"context"
 	"crypto/sha256"
 	"encoding/binary"
 	"encoding/hex"
@@ -22,6 +23,7 @@ import (
 	"time"
 
 	abci "github.com/cometbft/cometbft/abci/types"
+	cmtprotocrypto "github.com/cometbft/cometbft/proto/tendermint/crypto"
 	cmtproto "github.com/cometbft/cometbft/proto/tendermint/types"
 	protoio "github.com/cosmos/gogoproto/io"
 	"github.com/ethereum/go-ethereum/common"
@@ -68,6 +70,49 @@ type c17Validator struct{ v abci.Validator }
 func (v c17Validator) Address() []byte { return v.v.Address }
 func (v c17Validator) Power() int64    { return v.v.Power }
 
+// ---- the staking keeper as the handlers see it ------------------------------------------------------
+// The handlers take their staking keeper through interfaces (app.StakingKeeper: GetValidatorByConsAddr,
+// baseapp.ValidatorStore: GetPubKeyByConsAddr).  c17Staking is the real keeper with a table of answers by
+// consensus address that a scenario can change between two blocks (a validator is removed, another operator
+// creates a validator with the same consensus key); every other lookup goes to the real keeper.  The facts
+// handed to the model (v_op, c_valid) are measured through the same wrapper at the time of each call.
+type c17Override struct {
+	op string // operator address of the validator that holds the key now; "" = no validator has it
+}
+
+type c17Staking struct {
+	real *stakingkeeper.Keeper
+	over map[string]c17Override
+}
+
+func (k *c17Staking) GetValidatorByConsAddr(ctx context.Context, cons sdk.ConsAddress) (stakingtypes.Validator, error) {
+	if o, ok := k.over[string(cons)]; ok {
+		if o.op == "" {
+			return stakingtypes.Validator{}, stakingtypes.ErrNoValidatorFound
+		}
+		// the record of the validator that holds the key now: same consensus key, another operator
+		v, err := k.real.GetValidatorByConsAddr(ctx, cons)
+		if err != nil {
+			return v, err
+		}
+		v.OperatorAddress = o.op
+		return v, nil
+	}
+	return k.real.GetValidatorByConsAddr(ctx, cons)
+}
+
+func (k *c17Staking) GetPubKeyByConsAddr(ctx context.Context, cons sdk.ConsAddress) (cmtprotocrypto.PublicKey, error) {
+	v, err := k.GetValidatorByConsAddr(ctx, cons)
+	if err != nil {
+		return cmtprotocrypto.PublicKey{}, err
+	}
+	return v.CmtConsPublicKey()
+}
+
+func (k *c17Staking) set(cons []byte, op string) { k.over[string(cons)] = c17Override{op: op} }
+func (k *c17Staking) unset(cons []byte)          { delete(k.over, string(cons)) }
+func (k *c17Staking) reset()                     { k.over = map[string]c17Override{} }
+
 // ---- fixture -------------------------------------------------------------------------------------
 type c17Val struct {
 	priv *ed25519.PrivKey
@@ -83,6 +128,7 @@ type c17EvmKey struct {
 type c17Fix struct {
 	t      testing.TB
 	s      *setup.SharedSetup
+	sk     *c17Staking
 	ctx    sdk.Context
 	vals   []c17Val
 	keys   []c17EvmKey
@@ -144,9 +190,15 @@ func c17NewFix(t testing.TB) *c17Fix {
 	}
 	hhA := sha256.Sum256(hA[:])
 	fx.hashA = hhA[:]
-	fx.ph = app.NewProposalHandler(log.NewNopLogger(), s.Stakingkeeper, nil, s.Oraclekeeper, s.Bridgekeeper, s.Stakingkeeper)
+	fx.sk = &c17Staking{real: s.Stakingkeeper, over: map[string]c17Override{}}
+	fx.ph = fx.newHandler()
 	fx.vh = app.NewVoteExtHandler(log.NewNopLogger(), nil, s.Oraclekeeper, s.Bridgekeeper)
 	return fx
+}
+
+// a ProposalHandler instance as app.New builds it, on the fixture's keepers (staking through the wrapper)
+func (fx *c17Fix) newHandler() *app.ProposalHandler {
+	return app.NewProposalHandler(log.NewNopLogger(), fx.sk, nil, fx.s.Oraclekeeper, fx.s.Bridgekeeper, fx.sk)
 }
 
 // context of a handler call at the fixture's height; `enable` = VoteExtensionsEnableHeight
@@ -284,7 +336,7 @@ func c17DecodeExt(b []byte) *app.BridgeVoteExtension {
 func (fx *c17Fix) voteTerm(ctx sdk.Context, n *c17Names, v abci.ExtendedVoteInfo) string {
 	e := c17DecodeExt(v.VoteExtension)
 	op := "None"
-	if val, err := fx.s.Stakingkeeper.GetValidatorByConsAddr(ctx, v.Validator.Address); err == nil {
+	if val, err := fx.sk.GetValidatorByConsAddr(ctx, v.Validator.Address); err == nil {
 		op = "(Some " + cstr(n.op(val.OperatorAddress)) + ")"
 	}
 	aok := false
@@ -309,7 +361,7 @@ func (fx *c17Fix) commitTerm(ctx sdk.Context, n *c17Names, ec abci.ExtendedCommi
 	valid := false
 	func() {
 		defer func() { _ = recover() }()
-		valid = baseapp.ValidateVoteExtensions(ctx, fx.s.Stakingkeeper, fx.height, fx.chain, ec) == nil
+		valid = baseapp.ValidateVoteExtensions(ctx, fx.sk, fx.height, fx.chain, ec) == nil
 	}()
 	vs := make([]string, len(ec.Votes))
 	for i, v := range ec.Votes {
@@ -481,6 +533,10 @@ type c17Run struct {
 }
 
 func (fx *c17Fix) process(ctx sdk.Context, txs [][]byte) (verdict string, pmsg string) {
+	return fx.processWith(fx.ph, ctx, txs)
+}
+
+func (fx *c17Fix) processWith(ph *app.ProposalHandler, ctx sdk.Context, txs [][]byte) (verdict string, pmsg string) {
 	verdict = "PANIC"
 	func() {
 		defer func() {
@@ -488,7 +544,7 @@ func (fx *c17Fix) process(ctx sdk.Context, txs [][]byte) (verdict string, pmsg s
 				pmsg = fmt.Sprint(r)
 			}
 		}()
-		resp, err := fx.ph.ProcessProposalHandler(ctx, &abci.RequestProcessProposal{Height: fx.height, Txs: txs})
+		resp, err := ph.ProcessProposalHandler(ctx, &abci.RequestProcessProposal{Height: fx.height, Txs: txs})
 		if err != nil || resp == nil {
 			verdict = "REJECT"
 			return
@@ -504,6 +560,10 @@ func (fx *c17Fix) process(ctx sdk.Context, txs [][]byte) (verdict string, pmsg s
 
 // PreBlocker on a copy of the state; returns the Coq term of type pre_out, whether the rest of the stores is unchanged
 func (fx *c17Fix) preBlock(ctx sdk.Context, n *c17Names, txs [][]byte, before c17Post) (string, bool, string) {
+	return fx.preBlockWith(fx.ph, ctx, n, txs, before)
+}
+
+func (fx *c17Fix) preBlockWith(ph *app.ProposalHandler, ctx sdk.Context, n *c17Names, txs [][]byte, before c17Post) (string, bool, string) {
 	cctx, _ := ctx.CacheContext()
 	out := "QHalt"
 	pmsg := ""
@@ -514,7 +574,7 @@ func (fx *c17Fix) preBlock(ctx sdk.Context, n *c17Names, txs [][]byte, before c1
 				pmsg = fmt.Sprint(r)
 			}
 		}()
-		_, err := fx.ph.PreBlocker(cctx, &abci.RequestFinalizeBlock{Height: fx.height, Txs: txs})
+		_, err := ph.PreBlocker(cctx, &abci.RequestFinalizeBlock{Height: fx.height, Txs: txs})
 		if err != nil {
 			out = "QErr"
 			return
@@ -565,7 +625,7 @@ func c17CommitEqual(a, b abci.ExtendedCommitInfo) bool {
 
 // ---- generators -----------------------------------------------------------------------------------------
 type c17Scn struct {
-	mode    string // plain shortsig dupaddr stale
+	mode    string // plain shortsig dupaddr stale rekey
 	enable  int64
 	round   int32
 	ghost   c17Ghost
@@ -1130,6 +1190,18 @@ func (fx *c17Fix) scenario(r *rand.Rand, out *Out, mode string, tags []string, h
 		hand(sc, base, members)
 	} else {
 		fx.genState(r, base, sc, members)
+		if mode == "rekey" {
+			// the consensus key of one member is held by another operator now (or by none); the shared
+			// handler instance fx.ph has resolved that key in earlier scenarios
+			vi := members[r.Intn(len(members))]
+			if r.Intn(5) == 0 {
+				fx.sk.set(fx.vals[vi].cons, "")
+			} else {
+				fx.sk.set(fx.vals[vi].cons, c17FreshOp(fmt.Sprint(r.Intn(3))))
+				sc.evmOf[vi] = 6 + r.Intn(2) // the new operator's own EVM key
+			}
+			defer fx.sk.reset()
+		}
 		fx.genCommit(r, sc, members)
 	}
 	n := c17NewNames(fx)
@@ -1247,6 +1319,8 @@ func TestC17Pipeline(t *testing.T) {
 			mode = "dupaddr"
 		case q < 30:
 			mode = "stale"
+		case q < 36:
+			mode = "rekey"
 		}
 		fx.scenario(r, out, mode, nil, nil)
 	}
@@ -1593,5 +1667,314 @@ func TestC17Verify(t *testing.T) {
 		sc := &c17Scn{big: true, mode: pick(r, "plain", "plain", "shortsig"), evmOf: map[int]int{0: 0, 1: 1, 2: 2}, tsList: []uint64{1000}, snapKey: [][]byte{{0}, {1}}}
 		vi := members[r.Intn(3)]
 		run(nil, fx.genExt(r, sc, vi, members), vi, pick(r, -1, -1, 0, 1, 2, 3), r.Intn(6) == 0, r.Intn(3) == 0)
+	}
+}
+
+// ---- driver 4: one handler instance over consecutive blocks, the staking answer changes in between ------------
+// an operator address the fixture's staking module has never seen
+func c17FreshOp(tag string) string {
+	h := sha256.Sum256([]byte("c17-rekey-op-" + tag))
+	return sdk.ValAddress(h[:20]).String()
+}
+
+type c17Inst struct {
+	name string
+	ph   *app.ProposalHandler
+}
+
+// One block on the state in `base` with the commit sc.votes: every instance prepares; every instance processes every
+// instance's proposal and, when it accepts, runs the PreBlocker on a copy of the state.  Emits one CPeer case and
+// returns the first instance's proposal when that instance accepted it (the block that is finalized).
+func (fx *c17Fix) peerBlock(out *Out, sc *c17Scn, base sdk.Context, insts []c17Inst, kind string, tags []string, nontrivOp string, human map[string]interface{}) [][]byte {
+	n := c17NewNames(fx)
+	hctx := fx.handlerCtx(base, sc.enable, sc.round, sc.votes)
+	en := fx.height > sc.enable
+	before := fx.project(hctx, n)
+	stTerm := fx.stateTerm(hctx, n, sc.ghost)
+	ec := abci.ExtendedCommitInfo{Round: sc.round, Votes: sc.votes}
+	cmTerm, valid := fx.commitTerm(hctx, n, ec)
+	reqTxs := [][]byte{[]byte("othertx")}
+	pmsgs := []string{}
+	var preps []string
+	props := make([][][]byte, len(insts))
+	injected, contributes := 0, false
+	for i, in := range insts {
+		prep := "PPanic"
+		var txs [][]byte
+		func() {
+			defer func() {
+				if rec := recover(); rec != nil {
+					pmsgs = append(pmsgs, in.name+" prepare: "+fmt.Sprint(rec))
+				}
+			}()
+			resp, err := in.ph.PrepareProposalHandler(hctx, &abci.RequestPrepareProposal{Height: fx.height, LocalLastCommit: ec, Txs: reqTxs})
+			if err != nil {
+				fx.t.Fatalf("prepare error: %v", err)
+			}
+			txs = resp.Txs
+		}()
+		if txs != nil {
+			if len(txs) == len(reqTxs) {
+				prep = "PNone"
+				txs = append([][]byte{c17JSON(app.VoteExtTx{BlockHeight: fx.height, ExtendedCommitInfo: ec})}, txs...)
+			} else {
+				var tx app.VoteExtTx
+				if err := json.Unmarshal(txs[0], &tx); err != nil {
+					fx.t.Fatalf("prepared tx does not decode: %v", err)
+				}
+				if !c17CommitEqual(tx.ExtendedCommitInfo, ec) {
+					fx.t.Fatalf("embedded commit differs from the local commit after the JSON round trip")
+				}
+				prep = "(PInj " + c17Itx(n, &tx) + ")"
+				if i == len(insts)-1 { // the instance without a history
+					injected = len(tx.OpAndEVMAddrs.OperatorAddresses) + len(tx.ValsetSigs.OperatorAddresses) + len(tx.OracleAttestations.OperatorAddresses)
+					for _, l := range [][]string{tx.OpAndEVMAddrs.OperatorAddresses, tx.ValsetSigs.OperatorAddresses, tx.OracleAttestations.OperatorAddresses} {
+						for _, o := range l {
+							if o == nontrivOp {
+								contributes = true
+							}
+						}
+					}
+				}
+			}
+			props[i] = txs
+		}
+		preps = append(preps, prep)
+	}
+	var runs []string
+	verdicts := map[string]string{}
+	var finalized [][]byte
+	for j, txs := range props {
+		if txs == nil {
+			continue
+		}
+		prop, ok := fx.proposalTerm(hctx, n, txs, &ec, cmTerm)
+		if !ok {
+			continue
+		}
+		for i, in := range insts {
+			name := in.name + " on the proposal of " + insts[j].name
+			verdict, pm := fx.processWith(in.ph, hctx, txs)
+			if pm != "" {
+				pmsgs = append(pmsgs, name+" process: "+pm)
+			}
+			pre := "None"
+			other := true
+			if verdict == "ACCEPT" {
+				o, oth, pm2 := fx.preBlockWith(in.ph, hctx, n, txs, before)
+				if pm2 != "" {
+					pmsgs = append(pmsgs, name+" preblock: "+pm2)
+				}
+				pre = "(Some " + o + ")"
+				other = oth
+				if i == 0 && j == 0 {
+					finalized = txs
+				}
+			}
+			verdicts[name] = verdict
+			runs = append(runs, c17Mutant(prop, verdict, pre, other))
+		}
+	}
+	coq := fmt.Sprintf("CPeer %s %s %s %s %s %s", cbool(en), clist(n.tbl), stTerm, cmTerm, clist(preps), clist(runs))
+	sum := sha256.Sum256([]byte(coq))
+	human["votes"] = len(sc.votes)
+	human["valid"] = valid
+	human["injected"] = injected
+	human["verdicts"] = verdicts
+	human["panics"] = pmsgs
+	out.Emit(Case{Coq: coq, Kind: kind, Nontrivial: valid && en && injected > 0 && contributes, Key: hex.EncodeToString(sum[:8]), Tags: tags, Human: human})
+	return finalized
+}
+
+// a consistent bridge state for the members: two checkpoints, signature arrays laid out by the previous validator
+// set, the current set, snapshots created under it; the EVM keys 6 and 7 (of operators that may take over a
+// consensus key later) already stand in the validator sets
+func (fx *c17Fix) rekeyState(r *rand.Rand, ctx sdk.Context, sc *c17Scn, members []int) {
+	k := fx.s.Bridgekeeper
+	sc.evmOf = map[int]int{}
+	var addrs [][]byte
+	for _, vi := range members {
+		sc.evmOf[vi] = vi
+		a := fx.keys[vi].addr.Bytes()
+		if r.Intn(100) < 70 {
+			c17Must(fx.t, k.SetEVMAddressByOperator(ctx, fx.vals[vi].op, a))
+		}
+		addrs = append(addrs, a)
+	}
+	addrs = append(addrs, fx.keys[6].addr.Bytes(), fx.keys[7].addr.Bytes())
+	perm := func() [][]byte {
+		var vs [][]byte
+		for _, i := range r.Perm(len(addrs)) {
+			vs = append(vs, addrs[i])
+		}
+		return vs[:len(vs)-r.Intn(2)]
+	}
+	sets := [][][]byte{perm(), perm()}
+	sc.tsList = []uint64{1000, 2000}
+	for j, ts := range sc.tsList {
+		c17Must(fx.t, k.ValsetTimestampToIdxMap.Set(ctx, ts, bridgetypes.CheckpointIdx{Index: uint64(j)}))
+		c17Must(fx.t, k.ValidatorCheckpointIdxMap.Set(ctx, uint64(j), bridgetypes.CheckpointTimestamp{Timestamp: ts}))
+		c17Must(fx.t, k.BridgeValsetByTimestampMap.Set(ctx, ts, c17Valset(sets[j])))
+		c17Must(fx.t, k.BridgeValsetSignaturesMap.Set(ctx, ts, *bridgetypes.NewBridgeValsetSignatures(len(sets[0]))))
+	}
+	cur := sets[1]
+	c17Must(fx.t, k.BridgeValset.Set(ctx, c17Valset(cur)))
+	nSnap := 1 + r.Intn(2)
+	for j := 0; j < nSnap; j++ {
+		key := []byte{0x60 + byte(j), byte(r.Intn(256))}
+		c17Must(fx.t, k.SnapshotToAttestationsMap.Set(ctx, key, *bridgetypes.NewOracleAttestations(len(cur))))
+		sc.ghost.snaps = append(sc.ghost.snaps, c17Snap{key: key, valset: cur})
+		sc.snapKey = append(sc.snapKey, key)
+	}
+}
+
+// the commit of one block: `rich` (a member index or -1) votes with registration data of its current EVM key, a
+// signature for the second checkpoint and an attestation; the others as in the pipeline driver's plain mode
+func (fx *c17Fix) rekeyCommit(r *rand.Rand, sc *c17Scn, members []int, rich int, full bool) {
+	sc.votes = nil
+	for _, vi := range members {
+		v := fx.vals[vi]
+		flag := cmtproto.BlockIDFlagCommit
+		if q := r.Intn(100); q < 6 {
+			flag = cmtproto.BlockIDFlagAbsent
+		} else if q < 12 {
+			flag = cmtproto.BlockIDFlagNil
+		}
+		vote := abci.ExtendedVoteInfo{Validator: abci.Validator{Address: v.cons, Power: int64(pick(r, 1, 2, 3, 5, 10))}}
+		switch {
+		case vi == rich:
+			flag = cmtproto.BlockIDFlagCommit
+			key := fx.keys[sc.evmOf[vi]]
+			sz := 3
+			if full {
+				sz = 65
+			}
+			e := app.BridgeVoteExtension{}
+			what := 1 + r.Intn(7) // at least one of: registration, checkpoint signature, attestation
+			if what&1 != 0 {
+				e.InitialSignature = app.InitialSignature{SignatureA: key.sigA, SignatureB: key.sigB}
+			}
+			if what&2 != 0 && len(sc.tsList) > 0 {
+				e.ValsetSignature = app.BridgeValsetSignature{Signature: c17RandBytes(r, sz), Timestamp: sc.tsList[len(sc.tsList)-1]}
+			}
+			if what&4 != 0 && len(sc.snapKey) > 0 {
+				e.OracleAttestations = []app.OracleAttestation{{Snapshot: sc.snapKey[r.Intn(len(sc.snapKey))], Attestation: c17RandBytes(r, sz)}}
+			}
+			vote.VoteExtension = c17JSON(e)
+		case flag == cmtproto.BlockIDFlagCommit || r.Intn(3) == 0:
+			vote.VoteExtension = fx.genExt(r, sc, vi, members)
+		}
+		vote.BlockIdFlag = flag
+		if vote.VoteExtension != nil || flag == cmtproto.BlockIDFlagCommit {
+			vote.ExtensionSignature = fx.signExt(v, vote.VoteExtension, sc.round)
+		}
+		sc.votes = append(sc.votes, vote)
+	}
+	c17SortVotes(sc.votes)
+}
+
+// One long-lived handler instance over 2-3 consecutive blocks (Prepare -> Process -> PreBlocker, the PreBlocker's
+// writes are kept); between two blocks the staking module's answer for one member's consensus key changes.  In
+// every block a second instance, created for that block, runs on the same state.
+func (fx *c17Fix) rekeyScenario(r *rand.Rand, out *Out, tags []string, generated bool, plan []string, full bool) {
+	base, _ := fx.ctx.CacheContext()
+	h0 := fx.height
+	fx.sk.reset()
+	defer func() { fx.height = h0; fx.sk.reset() }()
+	long := c17Inst{name: "the long-lived instance", ph: fx.newHandler()}
+	sc := &c17Scn{mode: "rekey", enable: 1, round: int32(pick(r, 0, 0, 0, 1))}
+	members := r.Perm(c17NVals)[:2+r.Intn(4)]
+	if generated {
+		fx.genState(r, base, sc, members)
+	} else {
+		fx.rekeyState(r, base, sc, members)
+	}
+	target := members[r.Intn(len(members))] // the validator whose consensus key changes hands
+	cons := fx.vals[target].cons
+	curOp := fx.vals[target].op
+	nextKey := 6
+	for step, change := range plan {
+		kind := "rekey:first-block"
+		desc := "none"
+		if step > 0 {
+			fx.height++
+		}
+		switch change {
+		case "unknown": // no validator holds the key (yet / any more)
+			fx.sk.set(cons, "")
+			desc = fmt.Sprintf("consensus key of validator %d: operator %s -> no validator", target, curOp)
+			curOp = ""
+			kind = "rekey:removed"
+		case "fresh": // another operator created a validator with the same consensus key
+			op := c17FreshOp(fmt.Sprintf("%d-%d", target, nextKey))
+			fx.sk.set(cons, op)
+			sc.evmOf[target] = nextKey
+			nextKey++
+			desc = fmt.Sprintf("consensus key of validator %d: operator %s -> operator %s", target, curOp, op)
+			curOp = op
+			kind = "rekey:new-operator"
+		case "back": // the first operator holds the key again
+			fx.sk.unset(cons)
+			sc.evmOf[target] = target % len(fx.keys)
+			desc = fmt.Sprintf("consensus key of validator %d: operator %s -> operator %s", target, curOp, fx.vals[target].op)
+			curOp = fx.vals[target].op
+			kind = "rekey:first-operator-again"
+		}
+		if step == 0 && change != "" {
+			kind = "rekey:first-block-" + change
+		}
+		rich := -1
+		if r.Intn(5) > 0 {
+			rich = target
+		}
+		if generated && r.Intn(2) == 0 {
+			sc.votes = nil
+			fx.genCommit(r, sc, members)
+		} else {
+			fx.rekeyCommit(r, sc, members, rich, full)
+		}
+		fresh := c17Inst{name: "an instance created for this block", ph: fx.newHandler()}
+		human := map[string]interface{}{"mode": "rekey", "block": step + 1, "height": fx.height, "staking_change_before_this_block": desc,
+			"instances": []string{long.name + " (has processed the earlier blocks of this scenario)", fresh.name}}
+		finalized := fx.peerBlock(out, sc, base, []c17Inst{long, fresh}, kind, tags, curOp, human)
+		if finalized != nil {
+			hctx := fx.handlerCtx(base, sc.enable, sc.round, sc.votes)
+			func() {
+				defer func() { _ = recover() }()
+				_, _ = long.ph.PreBlocker(hctx, &abci.RequestFinalizeBlock{Height: fx.height, Txs: finalized})
+			}()
+		}
+	}
+}
+
+func TestC17Rekey(t *testing.T) {
+	out := newOut(t, "TestC17Rekey")
+	defer out.Close()
+	r := rand.New(rand.NewSource(seed() + 41))
+	fx := c17NewFix(t)
+	// corpus: operator A registers with key C; A is removed and operator B creates a validator with key C; B votes
+	fx.rekeyScenario(r, out, []string{"corpus"}, false, []string{"", "fresh"}, true)
+	fx.rekeyScenario(r, out, []string{"corpus"}, false, []string{"", "unknown", "fresh"}, true)
+	fx.rekeyScenario(r, out, []string{"corpus"}, false, []string{"", "fresh", "back"}, true)
+	n := count(45, 1500)
+	for i := 0; i < n; i++ {
+		var plan []string
+		switch q := r.Intn(100); {
+		case q < 45:
+			plan = []string{"", "fresh"}
+		case q < 60:
+			plan = []string{"", "fresh", "fresh"}
+		case q < 72:
+			plan = []string{"", "fresh", "back"}
+		case q < 82:
+			plan = []string{"", "unknown"}
+		case q < 90:
+			plan = []string{"", "unknown", "fresh"}
+		case q < 95:
+			plan = []string{"unknown", "back"}
+		default:
+			plan = []string{"fresh", "back", "fresh"}
+		}
+		fx.rekeyScenario(r, out, nil, r.Intn(4) == 0, plan, false)
 	}
 }
